@@ -19,11 +19,11 @@ from vlib import common
 from vlib.common import Run, rng_for
 
 PROP = "C10"
-LARGE_POOL = int(os.environ.get("C10_LARGE_POOL", "32"))
+LARGE_POOL = int(os.environ.get("C10_LARGE_POOL", "40"))
 LARGE_POOL_HUPS = int(os.environ.get("C10_LARGE_POOL_HUPS", "8"))
 RULE = ("scenario = (worker class, HUP timing vector incl. two HUPs 50 ms apart, sequence of (workers, GEN) configurations, "
         "client mix of short and 0.4-1.2 s requests from 8 concurrent clients, optionally one client reusing a single keep-alive "
-        "connection, a pool of 32 workers reloaded 8 times, a HUP landing while the previous reload forks); distinct = scenario "
+        "connection, two pools of 40 workers reloaded 8 times in a row, a HUP landing while the previous reload forks); distinct = scenario "
         "tuple; non-trivial = at least one request overlapping a HUP (measured)")
 
 
@@ -148,11 +148,11 @@ def run_scenario(run, e4, sc):
         # widen the time the master spends forking the new pool (a pre_fork hook that does work)
         conf_extra = ("def pre_fork(server, worker):\n    _ev('pre_fork', age=worker.age)\n"
                       "    import time as _t\n    _t.sleep(%s)\n    _ev('pre_fork_done', age=worker.age)\n" % sc["slow_prefork"])
-    if sc.get("leave_together"):
-        # workers that are told to leave within the same fraction of a second all leave at its end (a worker_exit hook that
-        # waits): the master then sees its children go at the same moment instead of one after the other
-        conf_extra += ("def worker_exit(server, worker):\n    import time as _t\n    _q = %s\n"
-                       "    _t.sleep(_q - (_t.monotonic() %% _q))\n" % sc["leave_together"])
+    if sc.get("leave_jitter"):
+        # a worker_exit hook that takes 0 .. leave_jitter seconds depending on the pid: the workers of a retired pool do not leave
+        # in the order in which they were told to, and the master is still walking its list while some of them go
+        conf_extra += ("def worker_exit(server, worker):\n    import time as _t, os as _o\n"
+                       "    _t.sleep((_o.getpid() * 2654435761 %% 1000) / 1000.0 * %s)\n" % sc["leave_jitter"])
     if sc.get("slow_boot"):
         # widen the window between fork() and the worker installing its own signal handlers
         conf_extra += ("def post_fork(server, worker):\n    _ev('post_fork', age=worker.age, wpid=worker.pid)\n"
@@ -416,10 +416,10 @@ def scenarios(tier, seed):
                         "keepalive_clients": 1, "nap": r3.choice([0.2, 0.3])})
         # a large pool of idle workers that all leave at the same moment, reloaded again and again (each HUP once the previous
         # one has replaced the pool)
-        out.append({"class": "sync", "configs": [(LARGE_POOL, g) for g in range(1, LARGE_POOL_HUPS + 2)],
-                    "hup_delays": [0.5] + [0.05] * (LARGE_POOL_HUPS - 1), "clients": 2, "client_mix": "short",
-                    "bind": r3.choice(["tcp", "unix"]), "kind": "large-pool", "wait_replaced": True,
-                    "leave_together": float(os.environ.get("C10_LT", "0.2"))})
+        for bind, jitter in (("tcp", 0.010), ("unix", 0.015)):
+            out.append({"class": "sync", "configs": [(LARGE_POOL, g) for g in range(1, LARGE_POOL_HUPS + 2)],
+                        "hup_delays": [0.5] + [0.05] * (LARGE_POOL_HUPS - 1), "clients": 2, "client_mix": "short",
+                        "bind": bind, "kind": "large-pool", "wait_replaced": True, "leave_jitter": jitter})
         # a HUP with a changed file while the previous reload is still forking its workers (slow pre_fork hook)
         out.append({"class": r3.choice(classes), "configs": [(2, 1), (3, 2), (r3.choice([1, 2]), 3)], "hup_delays": [0.5, r3.choice([0.4, 0.6])],
                     "clients": 4, "bind": "tcp", "kind": "hup-while-forking", "slow_prefork": 0.4})
@@ -460,12 +460,20 @@ def main(tier, seed):
     run = Run(PROP, tier, seed, "exploration", RULE)
     run.require("scenarios", "requests", "requests_overlapping_hup", "listener_inode_unchanged_checks", "all_workers_new_checks",
                 "new_generation_served_checks", "class/sync", "class/gthread", "class/gevent", "class/eventlet", "kind/double-fast",
-                "kind/ttin-then-hup", "long_request_across_reload_checks", "kind/two-listeners", "kind/unix-bind", "kind/double-slowboot")
+                "kind/ttin-then-hup", "long_request_across_reload_checks", "kind/two-listeners", "kind/unix-bind", "kind/double-slowboot",
+                "kind/keepalive-client", "keepalive_responses_on_reused_connection", "keepalive_connection_across_hup_checks",
+                "kind/large-pool", "reloads_of_a_large_pool_completed", "kind/hup-while-forking",
+                "hup_while_previous_reload_forks_checks")
     shards = [{"scenario": sc, "seed": seed, "tier": tier} for sc in scenarios(tier, seed)]
     run.assumptions = [
         "for non-sync workers a connection closed with zero response bytes is the accepted-but-not-yet-read case the statement does not cover: "
         "counted, inconclusive above 2% of requests",
         "quiescence = 4.3 s after the last HUP (longest request 1.2 s) plus up to 6 s for the pool size",
+        "a request sent on an already used keep-alive connection that ends without a byte counts as 'started reading' only when the "
+        "application's own log shows that it was entered for that request (per-request tag); otherwise it is the ordinary keep-alive "
+        "race (connection closed while the request travelled) and is only counted",
+        "hooks in the configuration file that take time (pre_fork 0.4 s, worker_exit 0-15 ms depending on the pid) are part of the "
+        "environment: they widen windows, they do not change what the master has to do",
     ]
     common.run_sharded(run, shards, timeout=600 if tier == "quick" else 3600, nproc=min(8, common.NCPU))
     return run.finish()
